@@ -8,6 +8,7 @@ import (
 	"go/token"
 	"go/types"
 	"os"
+	"strings"
 
 	"golang.org/x/tools/go/ssa"
 )
@@ -1122,6 +1123,22 @@ func ruleNoClamp(w *World, r *Report, fn string) {
 			bad = "index value compared outside the emission loop test at " + w.Pos(c.Pos()) + " (" + shortInstr(c) + ")"
 		}
 	}
+	// the vertical axis has two cells even at zoom 0 (f = 0 and f = -1): an ID
+	// emitted as a constant ignores the sign of the input index
+	if strings.HasSuffix(fn, ".VerticalZoom") {
+		instrs(f, func(in ssa.Instruction) {
+			c, ok := in.(*ssa.Call)
+			if !ok || builtinName(c) != "append" {
+				return
+			}
+			elems, _ := appendedElems(c)
+			for _, el := range elems {
+				if k, isK := resolve(el).(*ssa.Const); isK && k.Value != nil && isStringType(k.Type()) {
+					bad = "a constant vertical ID (" + k.Value.String() + ") is emitted at " + w.Pos(c.Pos()) + ", whatever the input index is (below ground the ancestor of a negative index is negative at every zoom, also at zoom 0)"
+				}
+			}
+		})
+	}
 	if bad != "" {
 		r.add("NOCLAMP", fn, w.Pos(f.Pos()), Violated, bad)
 	} else {
@@ -1196,7 +1213,79 @@ func ruleElementwise(w *World, r *Report, fn string, pidx int) {
 		}
 		bad = "loop-carried value " + p.Name() + " (" + p.Comment + ", " + p.Type().String() + ") is remembered from one element to the next"
 	}
-	// local variables (address-taken) written inside the loop and read before being written in the same iteration are not tracked
+	// state carried through memory: a local variable declared before the loop,
+	// written inside it, and read inside it at a point that is not preceded by a
+	// write of the same iteration
+	if bad == "" {
+		instrs(f, func(in ssa.Instruction) {
+			al, ok := in.(*ssa.Alloc)
+			if !ok || blocks[al.Block()] || bad != "" || al.Referrers() == nil {
+				return
+			}
+			et := al.Type().(*types.Pointer).Elem()
+			if isSlice(et) || isMap(et) {
+				return
+			}
+			type acc struct {
+				blk *ssa.BasicBlock
+				idx int
+			}
+			var writes, reads []acc
+			posOf := func(x ssa.Instruction) acc {
+				for i, y := range x.Block().Instrs {
+					if y == x {
+						return acc{x.Block(), i}
+					}
+				}
+				return acc{x.Block(), 0}
+			}
+			var scan func(addr ssa.Value, depth int)
+			scan = func(addr ssa.Value, depth int) {
+				if addr.Referrers() == nil || depth > 2 {
+					return
+				}
+				for _, ref := range *addr.Referrers() {
+					if !blocks[ref.Block()] {
+						continue
+					}
+					switch x := ref.(type) {
+					case *ssa.Store:
+						if x.Addr == addr {
+							writes = append(writes, posOf(x))
+						}
+					case *ssa.UnOp:
+						if x.Op == token.MUL {
+							reads = append(reads, posOf(x))
+						}
+					case *ssa.FieldAddr:
+						scan(x, depth+1)
+					case *ssa.IndexAddr:
+						scan(x, depth+1)
+					}
+				}
+			}
+			scan(al, 0)
+			if len(writes) == 0 || len(reads) == 0 {
+				return
+			}
+			// integer counters stepped by constants are fine
+			if isIntType(et) {
+				return
+			}
+			for _, rd := range reads {
+				covered := false
+				for _, wr := range writes {
+					if (wr.blk == rd.blk && wr.idx < rd.idx) || (wr.blk != rd.blk && wr.blk.Dominates(rd.blk) && blocks[wr.blk]) {
+						covered = true
+					}
+				}
+				if !covered {
+					bad = "local variable " + al.Comment + " (" + et.String() + "), declared before the loop, is written while one element is processed and read while the next one is: a value is remembered from one element to the next"
+					return
+				}
+			}
+		})
+	}
 	if bad != "" {
 		r.Add(Obligation{Rule: "ELEMENTWISE", Key: "ELEMENTWISE / " + fn, Pos: w.Pos(f.Pos()), Status: Violated, Detail: bad, Canary: w.IsCanary(f)})
 	} else {
